@@ -29,7 +29,8 @@ def handle (op : String) (j : Json) : Option (R Json) :=
   match op with
   | "c09.propagate_fft" => some do
       let fs ← (← getArr j "fields").mapM cfFldOfJson
-      let hasTilt ← getBool j "has_tilt"
+      let ntilt ← getInts j "ntilt"
+      let hasTilt := Gen.hasTilt ntilt.toList
       let w ← getInts j "wshape"
       let dx ← getFloats j "dx"; let du ← getFloats j "du"
       let wl ← getFloat j "wl"; let z ← getFloat j "z"
